@@ -13,7 +13,29 @@ import (
 	"verifsim/rewrite"
 )
 
-const repoDir = "/repo"
+// repoDir is /repo for every registered check. VERIF_REPO exists only so that
+// seeded changes can be tried in parallel in scratch worktrees; output then
+// goes to VERIF_OUT so that /verif/evidence is never written from a copy.
+var repoDir = func() string {
+	if d := os.Getenv("VERIF_REPO"); d != "" {
+		return d
+	}
+	return "/repo"
+}()
+
+var outDir = func() string {
+	if d := os.Getenv("VERIF_OUT"); d != "" {
+		return d
+	}
+	if os.Getenv("VERIF_REPO") != "" {
+		d, _ := os.MkdirTemp("", "verif-out-")
+		return d
+	}
+	if d := os.Getenv("VERIF_DIR"); d != "" {
+		return d
+	}
+	return "/verif"
+}()
 
 var verifDir = func() string {
 	if d := os.Getenv("VERIF_DIR"); d != "" {
